@@ -257,9 +257,38 @@ func ruleFreshMsg(c *Ctx) {
 						defined = true
 					}
 				}
+				if !defined {
+					// or re-bound after the hand-over: no path from the send back to it
+					// without an assignment to the variable
+					g := p.Graph(f)
+					if sn := g.NodeOf(ss); sn != nil {
+						rebinds := func(m *Node) bool {
+							if m == sn || m.Ast == nil {
+								return false
+							}
+							as, ok := m.Ast.(*ast.AssignStmt)
+							if !ok {
+								return false
+							}
+							for _, l := range as.Lhs {
+								if identObj(info, l) == types.Object(v) {
+									return true
+								}
+							}
+							return false
+						}
+						var starts []*Node
+						for _, e := range sn.Succs {
+							starts = append(starts, e.To)
+						}
+						if _, again := g.Reach(starts, rebinds, nil)[sn]; !again {
+							defined = true
+						}
+					}
+				}
 				construct := "value sent on " + p.chanDesc(f, ss.Chan)
 				if defined {
-					c.R.Hold("R-FRESH/msg", p.Pos(ss), f.Name, construct, "the sent reference is (re)bound inside the loop iteration before the send", true)
+					c.R.Hold("R-FRESH/msg", p.Pos(ss), f.Name, construct, "the sent reference is (re)bound inside the loop iteration before the send (or after it, on every path to the next send)", true)
 				} else {
 					c.R.Violate("R-FRESH/msg", p.Pos(ss), f.Name, construct,
 						"the same object is sent on the channel in every iteration (it is bound outside the loop): a later message overwrites one that is still parked at the receiver, so an id can be handed another id's connection info", nil)
@@ -1310,6 +1339,23 @@ func ruleWireAgreement(c *Ctx) {
 			}
 		}
 	}
+	// a hand-written codec that the normaliser (codec.go) did not turn into
+	// binary.Read / binary.Write is not in the full-read / full-write form
+	for _, f := range p.Funcs {
+		if !notTesting(p, f) {
+			continue
+		}
+		for _, call := range f.Calls() {
+			nm := p.CalleeName(f, call)
+			if strings.HasSuffix(nm, "ndian.Uint32") || strings.HasSuffix(nm, "ndian.PutUint32") || strings.HasSuffix(nm, "ByteOrder.Uint32") || strings.HasSuffix(nm, "ByteOrder.PutUint32") {
+				if !strings.HasPrefix(nm, "encoding/binary.") {
+					continue
+				}
+				c.R.Violate("R-SIB/wire", p.Pos(call), f.Name, "hand-written id codec "+exprStr(call.Fun),
+					"a 4-byte id/ack is encoded or decoded by hand in a form that is not `PutUint32(buf[:], v)` immediately followed by one Write(buf[:])`, or `io.ReadFull(r, buf[:])` followed by `Uint32(buf[:])`: a single Read may return fewer than 4 bytes (the rest of the buffer is then stale), and a Write that is not the next statement can be reordered or skipped", nil)
+			}
+		}
+	}
 	if n < 4 {
 		c.R.Undecided("R-SIB/wire", "", "instance-floor", fmt.Sprintf("only %d encoding/binary reads/writes found, 4 expected (id write/read, ack write/read)", n))
 		return
@@ -1611,4 +1657,256 @@ func soleReturn(f *Func) *ast.ReturnStmt {
 		}
 	}
 	return rs
+}
+
+// ---------- R-ALIAS/append: appending to a shared slice never writes into its backing array ----------
+
+// ruleSharedAppend: `x := append(shared, more...)` where shared is a
+// package-level slice of the module and the result goes somewhere else is only
+// safe when shared has no spare capacity - otherwise the new elements are
+// written into shared's own backing array, and two goroutines doing it at the
+// same time (two dials, two launches) overwrite each other's elements. The
+// slice must therefore be declared with a composite literal (len == cap) or no
+// value at all, and never be written afterwards.
+func ruleSharedAppend(c *Ctx) {
+	p := c.P
+	n, bad := 0, false
+	for _, f := range p.Funcs {
+		if !notTesting(p, f) {
+			continue
+		}
+		info := f.Pkg.TypesInfo
+		ast.Inspect(f.Body, func(x ast.Node) bool {
+			call, ok := x.(*ast.CallExpr)
+			if !ok || len(call.Args) < 2 || p.CalleeName(f, call) != "builtin.append" {
+				return true
+			}
+			v, ok := identObj(info, call.Args[0]).(*types.Var)
+			if !ok || v.IsField() || v.Pkg() == nil || v.Parent() != v.Pkg().Scope() || !strings.HasPrefix(v.Pkg().Path(), modPath) {
+				return true
+			}
+			// stored back into the same variable: an ordinary extension
+			if as, isAs := p.Parent(call).(*ast.AssignStmt); isAs && len(as.Lhs) == len(as.Rhs) {
+				for i, r := range as.Rhs {
+					if ast.Unparen(r) == ast.Expr(call) && identObj(info, as.Lhs[i]) == types.Object(v) {
+						return true
+					}
+				}
+			}
+			n++
+			full := p.pkgVarNeverWritten(v)
+			if full {
+				for _, pkg := range p.Pkgs {
+					for _, file := range pkg.Syntax {
+						for _, d := range file.Decls {
+							gd, isGen := d.(*ast.GenDecl)
+							if !isGen {
+								continue
+							}
+							for _, sp := range gd.Specs {
+								vs, isVS := sp.(*ast.ValueSpec)
+								if !isVS {
+									continue
+								}
+								for i, nm := range vs.Names {
+									if pkg.TypesInfo.Defs[nm] != types.Object(v) || i >= len(vs.Values) {
+										continue
+									}
+									if _, isLit := ast.Unparen(vs.Values[i]).(*ast.CompositeLit); !isLit {
+										full = false
+									}
+								}
+							}
+						}
+					}
+				}
+			}
+			construct := "append(" + v.Name() + ", ...)"
+			if full {
+				c.R.Hold("R-ALIAS/append", p.Pos(call), f.Name, construct, "the shared slice is declared with a composite literal (no spare capacity) and never written: the append copies", true)
+			} else {
+				bad = true
+				c.R.Violate("R-ALIAS/append", p.Pos(call), f.Name, construct,
+					"the result of appending to the package-level slice "+v.Name()+" is used elsewhere, and the slice may have spare capacity (it is not a never-written composite literal): the appended elements are written into the shared backing array, so overlapping calls overwrite each other's elements (one connection is dialled with another's dialer)", nil)
+			}
+			return true
+		})
+	}
+	if n == 0 && !bad {
+		c.R.Hold("R-ALIAS/append", "", "", "appends to shared slices", "no append to a package-level slice of the module whose result is stored elsewhere", false)
+	}
+}
+
+// ---------- R-IDX/find: the result of a substring search is tested before it is used as a bound ----------
+
+// ruleFindIndex: strings/bytes Index, LastIndex, IndexByte, ... return -1 when
+// nothing is found. A local bound to such a result may be used as an index or
+// slice bound (alone or as i+k / i-k) only where the program has established
+// that it is not negative: from the definition, the use is reachable only
+// across an edge i >= 0, i > -1, i != -1 (or the false edge of i < 0, i == -1).
+// (What is searched in this library is text that comes from the plugin: a line
+// cut short makes the search fail, and the slice expression panics the host.)
+func ruleFindIndex(c *Ctx) {
+	p := c.P
+	finders := map[string]bool{}
+	for _, pk := range []string{"strings", "bytes"} {
+		for _, fn := range []string{"Index", "LastIndex", "IndexByte", "LastIndexByte", "IndexRune", "IndexAny", "LastIndexAny", "IndexFunc", "LastIndexFunc"} {
+			finders[pk+"."+fn] = true
+		}
+	}
+	n, bad := 0, false
+	for _, f := range p.Funcs {
+		if !notTesting(p, f) {
+			continue
+		}
+		info := f.Pkg.TypesInfo
+		g := p.Graph(f)
+		for _, m := range g.Nodes {
+			as, ok := m.Ast.(*ast.AssignStmt)
+			if !ok || len(as.Lhs) != 1 || len(as.Rhs) != 1 {
+				continue
+			}
+			call, ok := ast.Unparen(as.Rhs[0]).(*ast.CallExpr)
+			if !ok || !finders[p.CalleeName(f, call)] {
+				continue
+			}
+			v, ok := identObj(info, as.Lhs[0]).(*types.Var)
+			if !ok || v.IsField() {
+				continue
+			}
+			n++
+			nonNeg := func(e *Edge) bool {
+				at, ok := edgeAtom(info, e)
+				if !ok || at.Kind != "cmp" {
+					return false
+				}
+				x, y, op := at.X, at.Y, at.Op
+				if identObj(info, y) == types.Object(v) {
+					x, y, op = y, x, swapOp(op)
+				}
+				if identObj(info, x) != types.Object(v) {
+					return false
+				}
+				k, isK := constInt(info, y)
+				if !isK {
+					return false
+				}
+				switch op {
+				case token.GEQ:
+					return k >= 0
+				case token.GTR:
+					return k >= -1
+				case token.NEQ:
+					return k == -1
+				case token.EQL:
+					return k >= 0
+				}
+				return false
+			}
+			isBoundUse := func(x *Node) ast.Node {
+				if x.Ast == nil || x == m {
+					return nil
+				}
+				var hit ast.Node
+				usesV := func(e ast.Expr) bool {
+					if e == nil {
+						return false
+					}
+					e = ast.Unparen(e)
+					if be, ok := e.(*ast.BinaryExpr); ok && (be.Op == token.ADD || be.Op == token.SUB) {
+						return identObj(info, be.X) == types.Object(v) || identObj(info, be.Y) == types.Object(v)
+					}
+					return identObj(info, e) == types.Object(v)
+				}
+				walkNoLit(x.Ast, func(y ast.Node) bool {
+					switch z := y.(type) {
+					case *ast.SliceExpr:
+						if usesV(z.Low) || usesV(z.High) || usesV(z.Max) {
+							hit = z
+						}
+					case *ast.IndexExpr:
+						if t := info.TypeOf(z.X); t != nil {
+							if _, isMap := t.Underlying().(*types.Map); !isMap && usesV(z.Index) {
+								hit = z
+							}
+						}
+					}
+					return true
+				})
+				return hit
+			}
+			var starts []*Node
+			for _, e := range m.Succs {
+				starts = append(starts, e.To)
+			}
+			redefines := func(x *Node) bool {
+				if x.Ast == nil || x == m {
+					return false
+				}
+				defs, _ := nodeDefsUses(info, x.Ast)
+				_, re := defs[v]
+				return re
+			}
+			seen := g.Reach(starts, redefines, nonNeg)
+			for x := range seen {
+				if use := isBoundUse(x); use != nil {
+					bad = true
+					c.R.Violate("R-IDX/find", p.Pos(use), f.Name, "bound "+v.Name()+" = "+exprStr(call.Fun)+"(...)",
+						"the result of a substring search is used as an index or slice bound on a path on which it was not established to be non-negative: when nothing is found it is -1 and the expression panics (a handshake line cut short, an address without the separator)", nil)
+				}
+			}
+		}
+	}
+	// a search call written directly into the bound is never tested
+	for _, f := range p.Funcs {
+		if !notTesting(p, f) {
+			continue
+		}
+		info := f.Pkg.TypesInfo
+		isFind := func(e ast.Expr) *ast.CallExpr {
+			if e == nil {
+				return nil
+			}
+			e = ast.Unparen(e)
+			if be, ok := e.(*ast.BinaryExpr); ok && (be.Op == token.ADD || be.Op == token.SUB) {
+				for _, side := range []ast.Expr{be.X, be.Y} {
+					if call, ok := ast.Unparen(side).(*ast.CallExpr); ok && finders[p.CalleeName(f, call)] {
+						return call
+					}
+				}
+				return nil
+			}
+			if call, ok := e.(*ast.CallExpr); ok && finders[p.CalleeName(f, call)] {
+				return call
+			}
+			return nil
+		}
+		walkNoLit(f.Body, func(y ast.Node) bool {
+			var call *ast.CallExpr
+			switch z := y.(type) {
+			case *ast.SliceExpr:
+				for _, b := range []ast.Expr{z.Low, z.High, z.Max} {
+					if cc := isFind(b); cc != nil {
+						call = cc
+					}
+				}
+			case *ast.IndexExpr:
+				if t := info.TypeOf(z.X); t != nil {
+					if _, isMap := t.Underlying().(*types.Map); !isMap {
+						call = isFind(z.Index)
+					}
+				}
+			}
+			if call != nil {
+				n++
+				bad = true
+				c.R.Violate("R-IDX/find", p.Pos(y), f.Name, "bound "+exprStr(call.Fun)+"(...) used directly",
+					"the result of a substring search is written straight into an index or slice bound: when nothing is found it is -1 and the expression panics (a handshake line cut short, an address without the separator)", nil)
+			}
+			return true
+		})
+	}
+	if !bad {
+		c.R.Hold("R-IDX/find", "-", "", "search results are tested before they are used as bounds", fmt.Sprintf("%d search results bound to locals, none reaches an index or slice bound untested", n), n > 0)
+	}
 }
